@@ -377,3 +377,31 @@ class VSysExit(_FloatOp):
     def _process_logic(self, data):
         _log("VSysExit")
         raise SystemExit(3)
+
+
+class Trip:
+    """A context value whose user-visible hooks are tripwires: comparing, hashing, truth-testing, measuring or iterating it
+    raises.  repr() and attribute access are harmless.  (Observational tracing may serialise or repr it, never compare it.)"""
+
+    def __init__(self, tag="trip"):
+        self.tag = tag
+
+    def __repr__(self):
+        return f"Trip({self.tag!r})"
+
+    def __eq__(self, other):
+        raise ValueError("verif: Trip.__eq__ called")
+
+    def __ne__(self, other):
+        raise ValueError("verif: Trip.__ne__ called")
+
+    __hash__ = None
+
+    def __bool__(self):
+        raise ValueError("verif: Trip.__bool__ called")
+
+    def __len__(self):
+        raise ValueError("verif: Trip.__len__ called")
+
+    def __iter__(self):
+        raise ValueError("verif: Trip.__iter__ called")
